@@ -1,5 +1,5 @@
 #!/bin/sh
-# tools/fuzz.sh <hist|kernel> <property-ID> [runs-per-worker] [seed]
+# tools/fuzz.sh <hist|kernel|twins|faults> <property-ID> [runs-per-worker] [seed]
 # Coverage-guided campaign (libFuzzer + AddressSanitizer + debug assertions) for the thorough tier.
 # exit 0: nothing found; 1: violation (VIOLATION line, replay file written); 2: inconclusive
 ROOT=$(cd "$(dirname "$0")/.." && pwd)
